@@ -1206,7 +1206,7 @@ func (e *env) checkpoint(i int, op Op) *hx.Failure {
 func (e *env) avoid(sig string) bool {
 	on := false
 	switch sig {
-	case sigLivelock:
+	case sigLivelock, sigShowDelOrder:
 		on = e.c.AvoidLive
 	case sigCommits, sigLatest:
 		on = e.c.AvoidCommits
@@ -1264,7 +1264,7 @@ func (e *env) request(r int, rq Req, twp **twin) *hx.Failure {
 	switch rq.K {
 	case "q":
 		q := e.resolve(rq.Q, e.pickAll)
-		if e.avoid(sigLivelock) && e.invisibleCount(r) > 0 {
+		if (e.avoid(sigLivelock) || e.avoid(sigShowDelOrder)) && e.invisibleCount(r) > 0 {
 			q = strings.ReplaceAll(q, "showDeleted: true", "showDeleted: false")
 		}
 		a, b := e.execReal(r, q), exec(tw.n, r, q)
@@ -1281,6 +1281,15 @@ func (e *env) request(r int, rq Req, twp **twin) *hx.Failure {
 		if !same(a, b) && !strings.Contains(q, "order:") && sameUnordered(a, b) {
 			e.st.add("req:query-rows-equal-as-multiset(no-order-requested)")
 			return nil
+		}
+		if !same(a, b) && strings.Contains(q, "showDeleted: true") && e.invisibleCount(r) > 0 &&
+			(sameUnordered(a, b) || (strings.Contains(q, "limit:") && !strings.Contains(q, "order:"))) {
+			// A showDeleted listing merges the live and the deleted documents in an order that follows the
+			// scan; with hidden documents present the scan is another one, so documents that tie under the
+			// requested order (or all of them, without an order) come in another sequence, and a limit
+			// without order cuts another slice. The rows themselves are the same (checked above when no
+			// limit cuts them).
+			return e.report(hx.Failf(sigShowDelOrder, "%s as %s\n real: %s\n twin: %s", q, who(r), show(a), show(b)))
 		}
 		if !same(a, b) {
 			if trace {
